@@ -9,7 +9,23 @@ Definition rtbl := nat -> rset.
 Definition rtset (R : rtbl) (i : nat) (r : rset) : rtbl := fun j => if Nat.eqb j i then r else R j.
 Definition rtbl0 : rtbl := fun _ => r_empty.
 
-Definition rstep (R : rtbl) (o : op) : rtbl * res :=
+(* the reference for the mutex slot: per set, the identity of the FIRST mutex installed since the set was
+   created (write-once) *)
+Definition ltbl := nat -> option lockid.
+Definition ltset (L : ltbl) (i : nat) (x : option lockid) : ltbl := fun j => if Nat.eqb j i then x else L j.
+Definition ltbl0 : ltbl := fun _ => None.
+Definition first_wins (cur : option lockid) (l : lockid) : option lockid :=
+  match cur with None => Some l | Some _ => cur end.
+
+Definition lstep (L : ltbl) (o : op) : ltbl :=
+  match o with
+  | OSync t l => ltset L t (first_wins (L t) l)
+  | OWithLock t l => if Z.eqb l 0 then L else ltset L t (first_wins (L t) l)
+  | OReset t _ l => ltset L t (if Z.eqb l 0 then None else Some l)
+  | _ => L
+  end.
+
+Definition rstep (R : rtbl) (L : ltbl) (o : op) : rtbl * res :=
   match o with
   | OAdd t v => (rtset R t (fst (r_add (R t) v)), RUnit)
   | OAddCheck t v => let '(r, b) := r_add (R t) v in (rtset R t r, RBool b)
@@ -24,7 +40,14 @@ Definition rstep (R : rtbl) (o : op) : rtbl * res :=
       | None => (R, RBad)
       end
   | OOrder t => let '(r, p) := r_order (R t) in (rtset R t r, if p then RPanic else RUnit)
-  | OSync t => (R, RUnit)
+  | OSync t _ => (R, RUnit)
+  | OWithLock t l =>
+      (R, if Z.eqb l 0 then RPanic                                  (* nil mutex *)
+          else match L t with
+               | None => RUnit
+               | Some c => if Z.eqb c l then RUnit else RPanic       (* "cannot override an existing mutex" *)
+               end)
+  | OLockProbe t => (R, RLen (match L t with Some l => if Z.ltb 0 l then l else 0 | None => 0 end))
   | OSortQuick t k choice | OSortMerge t k choice =>
       match r_sort (lt_of k) choice (R t) with
       | Some r => (rtset R t r, RUnit)
@@ -38,19 +61,19 @@ Definition rstep (R : rtbl) (o : op) : rtbl * res :=
       | None => (R, RBad)
       end
   | OUnmarshal t items => let '(r, p) := r_unmarshal (R t) items in (rtset R t r, if p then RPanic else RUnit)
-  | OReset t ordered sync => (rtset R t (mkR [] ordered), RUnit)
+  | OReset t ordered _ => (rtset R t (mkR [] ordered), RUnit)
   end.
 
 (* reference observation after a step: result, size, members in insertion order, orderedness of the target *)
 Definition robs := (res * Z * list Z * bool)%type.
 
-Fixpoint rrun (R : rtbl) (ops : list op) : list robs :=
+Fixpoint rrun (R : rtbl) (L : ltbl) (ops : list op) : list robs :=
   match ops with
   | [] => []
   | o :: ops' =>
-      let '(R1, r) := rstep R o in
+      let '(R1, r) := rstep R L o in
       let t := target o in
-      (r, r_len (R1 t), r_elems (R1 t), r_ordered (R1 t)) :: rrun R1 ops'
+      (r, r_len (R1 t), r_elems (R1 t), r_ordered (R1 t)) :: rrun R1 (lstep L o) ops'
   end.
 
 (* agreement: a sequence produced by an ordered set is the reference order exactly; one produced by an
@@ -90,13 +113,111 @@ Proof.
   unfold abs, SetInv, empty_set, r_empty, is_ordered, hm. simpl. repeat split; auto.
 Qed.
 
-Lemma abs_reset (ordered sync : bool) :
-  abs (let s1 := if ordered then fst (order empty_set) else empty_set in if sync then synchronize s1 else s1)
+Lemma abs_reset (ordered : bool) (l : lockid) :
+  abs (let s1 := if ordered then fst (order empty_set) else empty_set in if Z.eqb l 0 then s1 else synchronize s1 l)
       (mkR [] ordered).
 Proof.
   assert (A1 : abs (if ordered then fst (order empty_set) else empty_set) (mkR [] ordered)).
   { destruct ordered; [|exact abs_empty]. exact (proj1 (abs_order _ _ abs_empty)). }
-  cbv zeta. destruct sync; [apply abs_synchronize|]; exact A1.
+  cbv zeta. destruct (Z.eqb l 0); [|apply abs_synchronize]; exact A1.
+Qed.
+
+(* ------------------------------------------------------------------ the mutex slot is untouched by everything else *)
+Definition LK (T : tbl) (L : ltbl) : Prop := forall i, s_mtx (T i) = L i.
+
+Lemma mtx_add s v : s_mtx (fst (add_check s v)) = s_mtx s.
+Proof.
+  unfold add_check. cbv zeta. destruct (h_check (hm (s_lock s)) v); [apply mtx_lock|].
+  destruct (s_list (s_lock s)); simpl; apply mtx_lock.
+Qed.
+
+Lemma mtx_del s v : s_mtx (fst (delete_check s v)) = s_mtx s.
+Proof. unfold delete_check. cbv zeta. destruct (h_get (hm (s_lock s)) v); simpl; apply mtx_lock. Qed.
+
+Lemma mtx_populate vs : forall s, s_mtx (populate s vs) = s_mtx s.
+Proof.
+  induction vs as [|v vs IH]; intros s; [reflexivity|]. unfold populate in *. simpl. rewrite IH. apply mtx_add.
+Qed.
+
+Lemma mtx_order s : s_mtx (fst (order s)) = s_mtx s.
+Proof.
+  unfold order. cbv zeta. destruct (s_list (s_lock s)); [apply mtx_lock|].
+  destruct (Z.eqb (h_len (hm (s_lock s))) 0); simpl; apply mtx_lock.
+Qed.
+
+Lemma mtx_sort lt choice s s' : sort lt choice s = Some s' -> s_mtx s' = s_mtx s.
+Proof.
+  unfold sort. cbv zeta. destruct (s_list (s_lock s)).
+  - intros E. inv E. simpl. apply mtx_lock.
+  - destruct (perm_b choice (h_keys (hm (s_lock s)))); [|discriminate].
+    destruct (force_fill choice (hm (s_lock s)) [] (s_next (s_lock s))) as [[m st] nx].
+    intros E. inv E. simpl. apply mtx_lock.
+Qed.
+
+Lemma mtx_unmarshal items : forall s, s_mtx (fst (unmarshal s items)) = s_mtx s.
+Proof.
+  induction items as [|[v|] items IH]; intros s; simpl; [reflexivity| |reflexivity]. rewrite IH. apply mtx_add.
+Qed.
+
+Lemma LK_set T L i s x : LK T L -> s_mtx s = x -> LK (tset T i s) (ltset L i x).
+Proof. intros H E j. unfold tset, ltset. destruct (Nat.eqb j i); [exact E|apply H]. Qed.
+
+Lemma LK_set_l T L i s : LK T L -> s_mtx s = s_mtx (T i) -> LK (tset T i s) L.
+Proof. intros H E j. unfold tset. destruct (Nat.eqb_spec j i); [subst; rewrite E; apply H|apply H]. Qed.
+
+Lemma mtx_set_first cur l : fst (mtx_set cur l) = first_wins cur l.
+Proof. destruct cur; reflexivity. Qed.
+
+Lemma step_lock T L o : LK T L -> LK (fst (step T o)) (lstep L o).
+Proof.
+  intros H. destruct o; cbn [step lstep].
+  - apply LK_set_l; [exact H|apply mtx_add].
+  - destruct (add_check (T t) v) as [s b] eqn:E. cbn [fst]. apply LK_set_l; [exact H|].
+    change s with (fst (s, b)). rewrite <- E. apply mtx_add.
+  - apply LK_set_l; [exact H|apply mtx_del].
+  - destruct (delete_check (T t) v) as [s b] eqn:E. cbn [fst]. apply LK_set_l; [exact H|].
+    change s with (fst (s, b)). rewrite <- E. apply mtx_del.
+  - unfold check. cbn [fst]. apply LK_set_l; [exact H|apply mtx_lock].
+  - unfold len. cbn [fst]. apply LK_set_l; [exact H|apply mtx_lock].
+  - apply LK_set_l; [exact H|apply mtx_populate].
+  - unfold iterate. destruct (s_list (s_lock (T u))).
+    + cbn [fst]. apply LK_set_l.
+      * apply LK_set_l; [exact H|apply mtx_lock].
+      * rewrite mtx_populate. reflexivity.
+    + destruct (perm_b choice (h_keys (hm (s_lock (T u))))); cbn [fst]; [|exact H]. apply LK_set_l.
+      * apply LK_set_l; [exact H|apply mtx_lock].
+      * rewrite mtx_populate. reflexivity.
+  - destruct (order (T t)) as [s p] eqn:E. cbn [fst]. apply LK_set_l; [exact H|].
+    change s with (fst (s, p)). rewrite <- E. apply mtx_order.
+  - apply LK_set; [exact H|]. unfold synchronize. cbn [s_mtx]. rewrite mtx_set_first, (H t). reflexivity.
+  - unfold with_lock. destruct (Z.eqb l 0).
+    + cbn [fst]. apply LK_set_l; [exact H|reflexivity].
+    + destruct (mtx_set (s_mtx (T t)) l) as [m ok] eqn:E. cbn [fst]. apply LK_set; [exact H|].
+      cbn [s_mtx]. change m with (fst (m, ok)). rewrite <- E, mtx_set_first, (H t). reflexivity.
+  - cbn [fst]. apply LK_set_l; [exact H|apply mtx_lock].
+  - destruct (sort (lt_of k) choice (T t)) as [s|] eqn:E; cbn [fst]; [|exact H].
+    apply LK_set_l; [exact H|eapply mtx_sort; eauto].
+  - destruct (sort (lt_of k) choice (T t)) as [s|] eqn:E; cbn [fst]; [|exact H].
+    apply LK_set_l; [exact H|eapply mtx_sort; eauto].
+  - cbn [fst]. apply LK_set_l; [exact H|apply mtx_lock].
+  - unfold equal. cbv zeta.
+    assert (G : forall b, LK (tset (tset T u (s_lock (T u))) t (s_lock (T t))) L /\ b = b).
+    { intros b. split; [|reflexivity]. apply LK_set_l; [apply LK_set_l; [exact H|apply mtx_lock]|].
+      unfold tset at 2. destruct (Nat.eqb t u); apply mtx_lock. }
+    destruct (negb (h_len (hm (s_lock (T t))) =? h_len (hm (s_lock (T u)))) || negb (Bool.eqb (is_ordered (s_lock (T t))) (is_ordered (s_lock (T u)))));
+      [exact (proj1 (G true))|].
+    destruct (s_list (s_lock (T t))), (s_list (s_lock (T u))); exact (proj1 (G true)).
+  - unfold iterate. destruct (s_list (s_lock (T u))).
+    + cbn [fst]. apply LK_set_l.
+      * apply LK_set_l; [exact H|apply mtx_lock].
+      * rewrite mtx_populate. reflexivity.
+    + destruct (perm_b choice (h_keys (hm (s_lock (T u))))); cbn [fst]; [|exact H]. apply LK_set_l.
+      * apply LK_set_l; [exact H|apply mtx_lock].
+      * rewrite mtx_populate. reflexivity.
+  - destruct (unmarshal (T t) items) as [s p] eqn:E. cbn [fst]. apply LK_set_l; [exact H|].
+    change s with (fst (s, p)). rewrite <- E. apply mtx_unmarshal.
+  - apply LK_set; [exact H|]. destruct (Z.eqb l 0), ordered; try reflexivity;
+      unfold synchronize; cbn [s_mtx]; try (rewrite mtx_order); reflexivity.
 Qed.
 
 Ltac agree_refl := first [reflexivity | apply res_agree_refl | (split; [reflexivity|intros; reflexivity])].
